@@ -63,6 +63,10 @@ type Finding struct {
 	Prefix   bool   `json:"prefix"` // key is a prefix (same defect reached through several inputs)
 	Contains bool   `json:"contains"` // key is a substring identifying the failure mode inside structured keys
 	What     string `json:"what"`
+	// KeysFile (relative to /verif): the exact violation keys of this finding, one per line (a
+	// defect reached through many enumerated inputs); Key is then only the finding's identifier.
+	KeysFile string `json:"keys_file"`
+	keys     map[string]bool
 }
 
 type findingsFile struct {
@@ -110,6 +114,19 @@ func New(id string) *Check {
 		}
 		for _, f := range ff.Findings {
 			if f.Property == id {
+				if f.KeysFile != "" {
+					kb, err := os.ReadFile(filepath.Join(Root, f.KeysFile))
+					if err != nil {
+						fmt.Println("HARNESS-ERROR: known finding keys file:", err)
+						os.Exit(3)
+					}
+					f.keys = map[string]bool{}
+					for _, l := range strings.Split(string(kb), "\n") {
+						if l = strings.TrimRight(l, "\r"); l != "" && !strings.HasPrefix(l, "#") {
+							f.keys[l] = true
+						}
+					}
+				}
 				c.known = append(c.known, f)
 			}
 		}
@@ -216,7 +233,7 @@ func (c *Check) Violation(key string, detail any) {
 	c.mu.Lock()
 	defer c.mu.Unlock()
 	for _, f := range c.known {
-		if f.Key == key || (f.Prefix && strings.HasPrefix(key, f.Key)) || (f.Contains && strings.Contains(key, f.Key)) {
+		if (f.keys != nil && f.keys[key]) || (f.keys == nil && (f.Key == key || (f.Prefix && strings.HasPrefix(key, f.Key)) || (f.Contains && strings.Contains(key, f.Key)))) {
 			c.knownHit[f.Key]++
 			if p := os.Getenv("VERIF_LOG_KNOWN"); p != "" {
 				if fh, err := os.OpenFile(p, os.O_APPEND|os.O_CREATE|os.O_WRONLY, 0o644); err == nil {
@@ -304,6 +321,10 @@ func (c *Check) Finish() {
 	}
 	for _, f := range c.known {
 		if c.knownHit[f.Key] > 0 {
+			if f.keys != nil {
+				fmt.Printf("KNOWN-FINDING: property=%s %s [%s: %d of the %d listed inputs in %s]\n", c.ID, f.What, f.Key, c.knownHit[f.Key], len(f.keys), f.KeysFile)
+				continue
+			}
 			fmt.Printf("KNOWN-FINDING: property=%s %s [%s]\n", c.ID, f.What, f.Key)
 		}
 	}
